@@ -101,6 +101,7 @@ fn pipeline_case(case: &Value, dir: &str, emit: &[String]) -> Value {
     let mut st = Stages { events: vec![] };
     let mut nargs = 0usize;
     let mut sizes = json!({});
+    let mut main_valid = false;
     match kind {
         "fun" => {
             let src = match case.get("src").and_then(Value::as_str) {
@@ -110,6 +111,14 @@ fn pipeline_case(case: &Value, dir: &str, emit: &[String]) -> Value {
             'chain: {
                 let Some(parsed) = st.run("parse", || fun::parser::parse_module(&src).map_err(|e| format!("{e:?}"))) else { break 'chain };
                 let Some(checked) = st.run("check", || parsed.check().map_err(|e| format!("{e:?}"))) else { break 'chain };
+                // C18: later stages are only promised for a valid entry point
+                main_valid = checked.defs.iter().any(|d| {
+                    d.name == "main"
+                        && d.context.bindings.len() <= 5
+                        && d.context.bindings.iter().all(|b| b.chi == fun::syntax::context::Chirality::Prd && matches!(b.ty, fun::syntax::types::Ty::I64 { .. }))
+                        && matches!(d.ret_ty, fun::syntax::types::Ty::I64 { .. })
+                });
+                if case.get("only_valid_main").and_then(Value::as_bool).unwrap_or(false) && !main_valid { break 'chain }
                 if wants(emit, "fun") {
                     write(dir, &name, "fun.json", &ser_fun::prog_json(&checked).to_string());
                 }
@@ -184,7 +193,7 @@ fn pipeline_case(case: &Value, dir: &str, emit: &[String]) -> Value {
             sizes[ext] = json!({"lines": s.lines().count(), "hash": hash_str(&s)});
         }
     }
-    json!({"name": name, "kind": kind, "nargs": nargs, "stages": st.events, "sizes": sizes})
+    json!({"name": name, "kind": kind, "nargs": nargs, "stages": st.events, "sizes": sizes, "main_valid": main_valid})
 }
 
 fn main() {
@@ -218,6 +227,25 @@ fn main() {
             std::fs::create_dir_all(&args[3]).unwrap();
             std::env::set_current_dir(&args[3]).unwrap();
             replay::driver_replay(&spec, &out_path);
+        }
+        Some("check-files") => {
+            // sccv check-files <list.json> <out.json>: Driver::checked on files given by path (bytes as they are on disk)
+            let list: Value = serde_json::from_str(&std::fs::read_to_string(&args[2]).unwrap()).unwrap();
+            let mut out = vec![];
+            for p in list.as_array().unwrap() {
+                let path = std::path::PathBuf::from(p.as_str().unwrap());
+                let r = catch_unwind(AssertUnwindSafe(|| {
+                    let mut d = driver::Driver::new();
+                    d.checked(&path).map(|_| ()).map_err(|e| format!("{e:?}"))
+                }));
+                let (outcome, msg) = match r {
+                    Ok(Ok(())) => ("ok", String::new()),
+                    Ok(Err(m)) => ("error", m),
+                    Err(e) => ("panic", panic_msg(e)),
+                };
+                out.push(json!({"path": p, "outcome": outcome, "msg": msg}));
+            }
+            std::fs::write(&args[3], Value::Array(out).to_string()).unwrap();
         }
         Some("cdriver") => {
             // sccv cdriver <dir> <max number of arguments>: instantiate the repository's own C driver and io runtime
